@@ -7,7 +7,6 @@ use crate::plan::*;
 use crate::statecheck::*;
 use crate::vfail;
 use ckb_snapshot::Snapshot;
-use ckb_store::ChainStore;
 use proptest::prelude::*;
 use serde_json::{Value, json};
 use std::sync::Arc;
